@@ -28,6 +28,7 @@ ENVS = [
     {"TZ": "JST-9", "LANG": "ja_JP.UTF-8"},
     {"TZ": "PST8PDT,M3.2.0,M11.1.0", "LC_TIME": "en_US"},
     {"TZ": "UTC0"},
+    {"CLICOLOR_FORCE": "1", "TERM": "xterm-256color"},      # colour forced on: console output gets ANSI codes (stripped before comparing), structured output must not
 ]
 
 # timestamps for the function rules: with zone, without zone (environment-sensitive if ever accepted), inside a DST gap, non-RFC3339 forms
@@ -182,7 +183,7 @@ def shard(ctx):
             for mode, argv in modes.items():
                 runs = []
                 for k in range(N):
-                    envspec = ENVS[(k + t) % len(ENVS)]
+                    envspec = ENVS[(k + t + 3 * ctx.shard) % len(ENVS)]
                     cwd = sdir if k % 2 == 0 else alt_cwd
                     try:
                         code, out, err = run(argv, None, envspec, cwd, to_file=(k % 3 == 2))
